@@ -277,34 +277,8 @@ def run(check, an: Analysis):
     _check_schedule_preconditions(check, an)
 
     # ---- L4 -----------------------------------------------------------------
-    run_events = an.method(LOOP, '_run_events')
-    outer = [n for n in run_events.node.body if isinstance(n, ast.While)]
-    ok = False
-    detail = 'loop shape not recognised'
-    if len(outer) == 1:
-        loop = outer[0]
-        inner = [n for n in loop.body if isinstance(n, ast.While)]
-        no_exit = not any(isinstance(n, (ast.Break, ast.Return)) for n in ast.walk(loop))
-        pops = [n for n in ast.walk(loop) if isinstance(n, ast.Assign)
-                and isinstance(n.value, ast.Call)
-                and isinstance(n.value.func, ast.Attribute) and n.value.func.attr == 'pop']
-        if len(inner) == 1 and len(pops) == 1 and isinstance(pops[0].targets[0], ast.Tuple):
-            deque_name = ast.unparse(pops[0].targets[0].elts[1])
-            drained = ast.unparse(inner[0].test) == deque_name
-            popleft = [n for n in ast.walk(inner[0]) if isinstance(n, ast.Call)
-                       and isinstance(n.func, ast.Attribute)
-                       and n.func.attr in ('popleft', 'pop', 'popright')]
-            fifo = len(popleft) == 1 and popleft[0].func.attr == 'popleft' and \
-                ast.unparse(popleft[0].func.value) == deque_name
-            published = any(isinstance(n, ast.Assign)
-                            and ast.unparse(n.targets[0]) == 'self._pending'
-                            and ast.unparse(n.value) == deque_name for n in loop.body)
-            ok = drained and fifo and published and no_exit
-            detail = ('inner loop drains `%s` itself until empty (%s), by popleft (%s), '
-                      'the same object is published as self._pending (%s), no break/return '
-                      '(%s)' % (deque_name, drained, fifo, published, no_exit))
-    check.instance('L4', '_run_events:drain-before-next-pop', ok, where_fn(run_events),
-                   detail)
+    run_events = an.callee(LOOP, '_run_events')
+    check_drain(check, an, run_events, 'L4')
     schedule = an.callee(LOOP, 'schedule')
     for path in an.paths(schedule):
         if not path.normal:
@@ -369,6 +343,59 @@ def run(check, an: Analysis):
     check.stats.update(an.stats())
 
 
+def check_drain(check, an: Analysis, run_events: Callee, rule: str):
+    """
+    between two pops of the wait queue the popped deque is published as `_pending`, taken
+    from the left and tested empty before the next pop; activations are not skipped
+    """
+    verdict, n_seg, bad = True, 0, None
+    publish_ok, left_ok = True, True
+    for path in an.paths(run_events):
+        pops = [i for i, e in enumerate(path.events)
+                if e.kind in ('call', 'enter') and isinstance(e.node, ast.Call)
+                and isinstance(e.node.func, ast.Attribute) and e.node.func.attr == 'pop'
+                and 'activations' in rules.value_text(path, i, e.node.func.value)]
+        for k, start in enumerate(pops):
+            stop = pops[k + 1] if k + 1 < len(pops) else len(path.events)
+            seg = path.events[start:stop]
+            # the deque is the second element of the popped pair
+            stmt = None
+            for e in seg[:6]:
+                if e.kind == 'store' and isinstance(e.get('stmt'), ast.Assign) and \
+                        isinstance(e['stmt'].targets[0], ast.Tuple):
+                    stmt = e['stmt']
+            if stmt is None:
+                verdict = False
+                bad = bad or (path, start)
+                continue
+            deque_name = ast.unparse(stmt.targets[0].elts[1])
+            n_seg += 1
+            published = any(e.kind == 'store' and e['path'] == 'self._pending' and
+                            rules.value_text(path, start + seg.index(e), e['value'])
+                            == deque_name for e in seg)
+            publish_ok &= published
+            takes = [e for e in seg if e.kind == 'call' and isinstance(e.node, ast.Call)
+                     and isinstance(e.node.func, ast.Attribute)
+                     and e.node.func.attr in ('popleft', 'pop', 'popright')
+                     and rules.value_text(path, start + seg.index(e), e.node.func.value)
+                     == deque_name]
+            left_ok &= all(e.node.func.attr == 'popleft' for e in takes)
+            # the next thing after the segment is only reached after testing it empty
+            tests = [e for e in seg if e.kind == 'test' and rules.value_text(
+                path, start + seg.index(e), e.node) == deque_name]
+            drained = bool(tests) and tests[-1]['value'] is False
+            if not drained and (k + 1 < len(pops) or path.normal):
+                verdict = False
+                bad = bad or (path, start)
+    check.instance(rule, '_run_events:drain-before-next-pop', verdict and publish_ok and
+                   left_ok and n_seg > 0, where_fn(run_events.fn),
+                   'after every pop of the wait queue its deque is published as '
+                   'self._pending (%s), consumed by popleft (%s) and tested empty before '
+                   'the next pop or the end (%d pop segments on paths)' % (
+                       publish_ok, left_ok, n_seg),
+                   path=rules.path_lines(*bad) if bad else None, analysed=n_seg)
+
+
 def _is_popped_key(fn, name: str) -> bool:
     for node in ast.walk(fn.node):
         if isinstance(node, ast.Assign) and isinstance(node.targets[0], ast.Tuple) and \
@@ -399,16 +426,17 @@ def _check_waitqueues(check, an: Analysis):
     check.instance('L2', 'HQ:heap-discipline', set(names) <= {'heappush', 'heappop', 'bool'}
                    and {'heappush', 'heappop'} <= set(names), where_fn(push),
                    '_keys only sees heappush/heappop: %s' % names)
-    returns = [n for n in ast.walk(pop.node) if isinstance(n, ast.Return)]
-    ok = False
-    if len(returns) == 1 and isinstance(returns[0].value, ast.Tuple) and \
-            len(returns[0].value.elts) == 2:
-        key, data = returns[0].value.elts
-        keydef = rules.local_values(pop, key.id) if isinstance(key, ast.Name) else []
-        ok = len(keydef) == 1 and isinstance(keydef[0], ast.Call) and \
-            ast.unparse(keydef[0]) == 'heappop(self._keys)' and \
-            ast.unparse(data) == 'self._data.pop(%s)' % key.id
-    check.instance('L2', 'HQ.pop:min-key-with-own-deque', ok, where_fn(pop),
+    ok, n = True, 0
+    for path in an.paths(an.callee(HQ, 'pop')):
+        if path.kind != 'return':
+            continue
+        n += 1
+        value = rules.value_expr(path, len(path.events) - 1, path.outcome[1])
+        good = isinstance(value, ast.Tuple) and len(value.elts) == 2 and \
+            ast.unparse(value.elts[0]) == 'heappop(self._keys)' and \
+            ast.unparse(value.elts[1]) == 'self._data.pop(heappop(self._keys))'
+        ok &= good
+    check.instance('L2', 'HQ.pop:min-key-with-own-deque', ok and n > 0, where_fn(pop),
                    'returns (heappop(_keys), _data.pop(that key))')
     # a key enters the heap exactly when its deque is created
     hq_push = an.callee(HQ, 'push')
@@ -428,12 +456,13 @@ def _check_waitqueues(check, an: Analysis):
                    'is appended once')
     # SD: popitem(0)
     sd_pop = an.method(SD, 'pop')
-    returns = [n for n in ast.walk(sd_pop.node) if isinstance(n, ast.Return)]
-    ok = len(returns) == 1 and isinstance(returns[0].value, ast.Call) and \
-        ast.unparse(returns[0].value.func) == 'self._data.popitem' and \
-        len(returns[0].value.args) == 1 and isinstance(returns[0].value.args[0], ast.Constant) \
-        and returns[0].value.args[0].value == 0 and not returns[0].value.keywords
-    check.instance('L2', 'SD.pop:popitem(0)', ok, where_fn(sd_pop),
+    ok, n = True, 0
+    for path in an.paths(an.callee(SD, 'pop')):
+        if path.kind == 'return':
+            n += 1
+            ok &= rules.value_text(path, len(path.events) - 1, path.outcome[1]) == \
+                'self._data.popitem(0)'
+    check.instance('L2', 'SD.pop:popitem(0)', ok and n > 0, where_fn(sd_pop),
                    'SortedDict.popitem(0) is the smallest key (the default is the largest)')
     sd_push = an.callee(SD, 'push')
     verdict = True
@@ -666,25 +695,25 @@ def _constructor_sites(an: Analysis, cls_qn: str):
 
 def _check_plumbing(check, an: Analysis):
     schedule = an.method(LOOP, 'schedule')
-    # schedule: key == time + delay / at
-    pushes = [n for n in ast.walk(schedule.node) if isinstance(n, ast.Call)
-              and isinstance(n.func, ast.Attribute) and n.func.attr == 'push']
-    forms = sorted(ast.unparse(p.args[0]) for p in pushes if p.args)
-    ok = len(pushes) == 2 and any(equal_algebra(f, 'self.time + delay') for f in forms) \
-        and any(f == 'at' for f in forms)
-    check.instance('L5', 'Loop.schedule:keys', ok, where_fn(schedule),
-                   'activations are queued under `time + delay` / `at`: %s' % forms)
+    # schedule: key == time + delay / at, matching the argument that was given
+    kinds = {}
     for path in an.paths(an.callee(LOOP, 'schedule')):
-        for event in path.events:
-            if is_call_to(event, 'push'):
-                key = ast.unparse(event.node.args[0])
-                if key == 'at':
-                    ok = any(tested(e, ('isnone', 'at'), False) for e in path.events)
+        for index, event in enumerate(path.events):
+            if is_call_to(event, 'push') and event.kind != 'leave' and \
+                    isinstance(event.node, ast.Call) and event.node.args:
+                key = rules.value_text(path, index, event.node.args[0])
+                by_at = any(tested(e, ('isnone', 'at'), False) for e in path.events[:index])
+                by_delay = any(tested(e, ('isnone', 'delay'), False)
+                               for e in path.events[:index])
+                if equal_algebra(key, 'self.time + delay'):
+                    kinds['delay'] = kinds.get('delay', True) and by_delay
+                elif key == 'at':
+                    kinds['at'] = kinds.get('at', True) and by_at
                 else:
-                    ok = any(tested(e, ('isnone', 'delay'), False) for e in path.events)
-                check.instance('L5', 'Loop.schedule:branch(%s)' % key, ok, event.where,
-                               'the key matches the argument that was given',
-                               path=rules.path_lines(path))
+                    kinds['other:%s' % key] = False
+    check.instance('L5', 'Loop.schedule:keys', kinds == {'delay': True, 'at': True},
+                   where_fn(schedule), 'activations are queued under `time + delay` when a '
+                   'delay is given and under `at` when a date is given: %s' % kinds)
     table = [
         ('usim._primitives.notification.suspend', 'schedule', {'delay': 'delay',
                                                               'at': 'until'}),
